@@ -885,3 +885,71 @@ fn c08_verify_one_shape() {
     core::mem::forget(bp);
     core::mem::forget(proof);
 }
+
+// ---------------------------------------------------------------------------------------------
+// Reduced-grid variants of the C17 verifier-side harness (the 72-arm version ends without verdict).
+
+macro_rules! split2 {
+    ($x:expr, $f:ident $(, $a:expr)*) => {
+        match $x {
+            0 => $f(0 $(, $a)*),
+            _ => $f(1 $(, $a)*),
+        }
+    };
+}
+
+fn c17s_body(n2: usize, n1: usize, cap: usize, bp: &BulletproofGens<UnitA>) {
+    let pc = pc_gens();
+    let proof = proof_identity_t1();
+    let thr = threshold(n1 + n2);
+    let mut t = Transcript::new(b"c17");
+    let v = c17_verifier(&mut t, n1, n2);
+    let res = v.verify(&proof, &pc, bp);
+    if cap < thr {
+        assert!(res == Err(R1CSError::InvalidGeneratorsLength));
+    } else {
+        assert!(res == Err(R1CSError::VerificationError));
+    }
+    kani::cover!(n1 == 0 && n2 == 0 && cap == 0, "zero gates, zero capacity -> error");
+    kani::cover!(n1 == 0 && n2 == 0 && cap == 1, "zero gates, capacity one -> passes the check");
+    kani::cover!(n1 == 2 && n2 == 1 && cap == 2, "three gates over two phases, capacity two -> error");
+    kani::cover!(n1 == 1 && n2 == 1 && cap == 2, "two gates over two phases, capacity two -> passes the check");
+    core::mem::forget(t);
+    core::mem::forget(proof);
+}
+fn c17s_split_n1(n1: usize, n2: usize, cap: usize, bp: &BulletproofGens<UnitA>) {
+    split2!(n2, c17s_body, n1, cap, bp)
+}
+fn c17s_cap(cap: usize, n1: usize, n2: usize) {
+    let bp = BulletproofGens::<UnitA>::new(cap, 1);
+    assert!(bp.gens_capacity == cap);
+    split3!(n1, c17s_split_n1, n2, cap, &bp);
+    core::mem::forget(bp);
+}
+
+/// C17 `c17_verify_capacity_threshold_small`
+///
+/// Property: C17, `Verifier::verify`.  Symbolic (case-split): first-phase gates n1 in 0..=2,
+/// second-phase gates n2 in 0..=1 (allocated by a randomized-phase closure), generator capacity
+/// in 0..=2 (real `BulletproofGens::new(cap, 1)`).  Concrete: a well-formed proof object whose
+/// T_1 is the identity.  Claim: `Err(InvalidGeneratorsLength)` iff
+/// cap < max(1, next_power_of_two(n1+n2)), `Err(VerificationError)` (from the T_1 check that
+/// follows the capacity check) otherwise; no panic.  18 arms; unwind 74; level-2 stubs.
+#[kani::proof]
+#[kani::unwind(74)]
+#[kani::stub(keccak::f1600, f1600_stub)]
+#[kani::stub(keccak::p1600, p1600_stub)]
+#[kani::stub(zeroize::optimization_barrier, barrier_stub)]
+#[kani::stub(<ChaCha20Core as SeedableRng>::from_seed, chacha_from_seed_stub)]
+#[kani::stub(<ChaCha20Core as BlockRngCore>::generate, chacha_generate_stub)]
+#[kani::stub(<Sha3_512Core as FixedOutputCore>::finalize_fixed_core, sha3_512_finalize_stub)]
+#[kani::stub(merlin::Transcript::new, toy_transcript_new)]
+#[kani::stub(merlin::Transcript::append_message, toy_append_message)]
+#[kani::stub(merlin::Transcript::challenge_bytes, toy_challenge_bytes)]
+fn c17_verify_capacity_threshold_small() {
+    let n1: usize = kani::any();
+    let n2: usize = kani::any();
+    let cap: usize = kani::any();
+    kani::assume(n1 <= 2 && n2 <= 1 && cap <= 2);
+    split3!(cap, c17s_cap, n1, n2);
+}
